@@ -15,7 +15,6 @@ RULE = ("seeded matrices n=1..5 with entries k/4 in density classes (full/upper/
 ASSUMPTIONS = [
     "exact arithmetic: theorems are over any field of characteristic 0 (and the model over Q); IEEE rounding is outside the proof",
     "'caller's matrices are left unmodified' and 'every accepted container type' are runtime/scipy behaviour: covered by the byte-level snapshot comparison in the correspondence run (a test, not a theorem)",
-    "evaluate_QUBO on a 1x1 COO input raises inside scipy (coo.dot returns a scalar); the oracle evaluates inputs itself and calls the package evaluators on what the package returns",
 ]
 PARTIAL = ["no-mutation / container-type half of the property: differential test only (a Lean function is pure by construction)"]
 BUDGET_S = {"quick": 60, "thorough": 600}
@@ -194,6 +193,38 @@ def run_case(case, drv):
         res.fail("maps:inverse", f"s_to_x(x_to_s({xs})) = {back}")
     if G.snapshot(xv) != bx:
         res.fail("maps:mutates-input", "x_to_s modified its argument")
+    # the maps on binary vectors of every numeric dtype (np.unpackbits gives uint8, comparisons give bool)
+    for dt in (np.uint8, np.uint16, np.uint32, np.int8, np.bool_, np.float64, np.float32):
+        xd = np.array(xs, dtype=dt)
+        try:
+            sd = qt.x_to_s(xd)
+            got = [F(float(t)) for t in sd]
+            backd = [F(float(t)) for t in qt.s_to_x(sd)]
+        except Exception as e:  # noqa
+            res.fail("maps:dtype-raises", f"x_to_s / s_to_x raised {e!r} on a binary vector of dtype {np.dtype(dt).name}")
+            break
+        if got != [Fraction(-1 if xi == 1 else 1) for xi in xs]:
+            res.fail("maps:x_to_s-dtype", f"x_to_s(array({xs}, dtype={np.dtype(dt).name})) = {[fs(t) for t in got]}")
+            break
+        if backd != [Fraction(t) for t in xs]:
+            res.fail("maps:inverse-dtype", f"s_to_x(x_to_s(array({xs}, dtype={np.dtype(dt).name}))) = {[fs(t) for t in backd]}")
+            break
+    # the evaluators on the caller's own container (every accepted kind, every size from 1 x 1)
+    if r <= 6:
+        Cq = G.to_container(M, kind)
+        for x in list(G.all_binary(r))[:16]:
+            want_q = G.quad_fr(M, x) + const
+            sx = [1 - 2 * t for t in x]
+            want_i = G.quad_fr(M, sx) + sum(hi * si for hi, si in zip(h, sx)) + const
+            try:
+                got_q = F(float(qt.evaluate_QUBO(Cq, float(const), np.array(x))))
+                got_i = F(float(qt.evaluate_Ising(Cq, hobj, float(const), np.array(sx))))
+            except Exception as e:  # noqa
+                res.fail("eval:raises", f"evaluate_QUBO / evaluate_Ising raised {e!r} on a {r}x{r} {kind} matrix at x={list(x)}")
+                break
+            if got_q != want_q or got_i != want_i:
+                res.fail("eval:value", f"evaluate_QUBO = {fs(got_q)} (exact {fs(want_q)}), evaluate_Ising = {fs(got_i)} (exact {fs(want_i)}) on a {kind} matrix at x={list(x)}")
+                break
     # evaluators against the model on the package's own outputs
     e_impl = F(qt.evaluate_QUBO(sp.csr_array(G.to_container(M, "ndarray")), float(const), xv))
     e_model = Fraction(core.split_reply(drv.ask(f"evalq {fmat(M, r, c)} {fs(const)} {fl(xs)}"))[1][0][0])
